@@ -42,6 +42,7 @@ type GenOpts struct {
 	DirectRec   bool // direct struct recursion (*Self "@@" behind a consumed token); only renderable as Go source
 	WildLits    bool // literal texts with escapes / non-ASCII (for grammars that are printed, not parsed)
 	Embeds      bool // Go-source rendering: put leading fields into an embedded named struct
+	Parseables  bool // user-implemented productions (participle.Parseable)
 }
 
 type genCtx struct {
@@ -115,7 +116,7 @@ func (c *genCtx) newProd(nn bool, depth int) int {
 	p.Expr = e
 	c.nullP[idx] = c.nullable(e)
 	if c.o.PosStyles {
-		p.PosStyle = c.draw(0, 3, "posstyle")
+		p.PosStyle = c.draw(0, 4, "posstyle")
 	}
 	p.TagStyle = c.draw(0, 1, "tagstyle")
 	p.Tight = rapid.Bool().Draw(c.t, "tight")
@@ -154,7 +155,9 @@ func (c *genCtx) subProd(nn bool, depth int) *Expr {
 
 func (c *genCtx) nullable(e *Expr) bool {
 	switch e.Kind {
-	case KLit, KRef, KNeg:
+	case KRef:
+		return e.T == "EOF"
+	case KLit, KNeg, KPars:
 		return false
 	case KLook:
 		return true
@@ -244,6 +247,9 @@ func (c *genCtx) gen(depth int, nn, incap bool) *Expr {
 		if incap {
 			return c.leaf()
 		}
+		if c.o.Parseables && c.draw(0, 3, "parseable") == 0 {
+			return &Expr{Kind: KPars, Prod: -1, Uni: -1}
+		}
 		if e := c.subProd(nn, depth); e != nil {
 			return e
 		}
@@ -252,7 +258,32 @@ func (c *genCtx) gen(depth int, nn, incap bool) *Expr {
 		if c.o.NoLookNeg {
 			return c.leaf()
 		}
-		n := Not(c.gen(depth-1, true, true))
+		if c.o.WildLits && !incap {
+			switch c.draw(0, 5, "negshape") {
+			case 0:
+				// a modified negation whose operand itself ends in a modifier: ( ~( x? ) )+
+				inner := Group(rapid.SampledFrom([]string{"?", "*", "+", "!"}).Draw(c.t, "negin"), c.leaf())
+				outer := rapid.SampledFrom([]string{"+", "+", "?", "*"}).Draw(c.t, "negout")
+				if nn {
+					outer = "+"
+				}
+				return Group(outer, Not(inner))
+			case 1:
+				// a negation of a captured negation, directly or through plain groups: ~( @~x )
+				in := Cap(Not(c.leaf()))
+				if c.draw(0, 1, "negwrap") == 0 {
+					return Not(Group("", in))
+				}
+				return Not(in)
+			}
+		}
+		var n *Expr
+		if c.o.WildLits && c.draw(0, 2, "wildneg") == 0 {
+			// grammars that are only printed: the operand may be optional and may capture
+			n = Not(c.gen(depth-1, false, incap))
+		} else {
+			n = Not(c.gen(depth-1, true, true))
+		}
 		n.Style = c.draw(0, 1, "nstyle")
 		return n
 	case 9:
@@ -273,7 +304,24 @@ func (c *genCtx) gen(depth int, nn, incap bool) *Expr {
 			kids[i] = Group("?", item)
 			kids[i].Style = c.draw(0, 5, "gstyle")
 		}
-		return Group("!", Seq(kids...))
+		ne := Group("!", Seq(kids...))
+		if c.o.WildLits {
+			switch c.draw(0, 3, "wildne") {
+			case 0:
+				// ! applied to any term, and a further modifier stacked on it: ( x! )?
+				ne = Group("!", c.gen(depth-1, true, incap))
+				ne.Style = c.draw(0, 5, "gstyle")
+				if !nn {
+					return Group(rapid.SampledFrom([]string{"?", "*"}).Draw(c.t, "neouter"), ne)
+				}
+				return Group("+", ne)
+			case 1:
+				if !nn {
+					return Group(rapid.SampledFrom([]string{"?", "*", "+"}).Draw(c.t, "neouter2"), ne)
+				}
+			}
+		}
+		return ne
 	case 12:
 		// numeric capture shapes: @Int, @("-"? Int), @(Int+)
 		if incap {
@@ -340,7 +388,7 @@ func flatLeaves(e *Expr, out *[]*Expr) {
 	switch e.Kind {
 	case KLit, KRef:
 		*out = append(*out, e)
-	case KNeg, KLook, KSub:
+	case KNeg, KLook, KSub, KPars:
 	default:
 		for _, k := range e.Kids {
 			flatLeaves(k, out)
@@ -363,7 +411,7 @@ func (c *genCtx) otherLiteral(e *Expr) *Expr {
 }
 
 func hasCapture(e *Expr) bool {
-	if e.Kind == KCap || e.Kind == KSub {
+	if e.Kind == KCap || e.Kind == KSub || e.Kind == KPars {
 		return true
 	}
 	for _, k := range e.Kids {
@@ -521,6 +569,16 @@ func assignFields(t *rapid.T, p *Prod, e *Expr, pi int) {
 			// a capture may contain captures only through ~( ) / lookahead bodies built by traps
 			for _, k := range e.Kids {
 				walk(k, true)
+			}
+			return
+		case KPars:
+			k := rapid.SampledFrom([]FKind{FPars, FParsV, FParss}).Draw(t, "pk")
+			n := len(p.Fields)
+			if n > 0 && p.Fields[n-1].Kind == k && rapid.Bool().Draw(t, "reuse") {
+				e.Field = n - 1
+			} else {
+				p.Fields = append(p.Fields, Field{Kind: k, Prod: -1, Uni: -1})
+				e.Field = n
 			}
 			return
 		case KSub:
@@ -698,7 +756,7 @@ func Sample(t *rapid.T, g *Grammar, e *Expr, out *[]VTok, fuel *int) {
 		} else {
 			Sample(t, g, g.Prods[e.Prod].Expr, out, fuel)
 		}
-	case KNeg:
+	case KNeg, KPars:
 		*out = append(*out, rapid.SampledFrom(g.Prof().Vocab).Draw(t, "negtok"))
 	}
 }
